@@ -282,6 +282,27 @@ func cmpAssume(name, op string, l, rr func(*core.Expr) bool) assumption {
 			if fop == neg[op] {
 				return -1
 			}
+			// x == y assumed decides the order tests of the same two operands: a
+			// search `for i < n` left with i >= n is the "i == n" case
+			if op == "==" {
+				// (decided, but not the test of the condition itself: +-2)
+				switch fop {
+				case ">=", "<=":
+					return 2
+				case "<", ">":
+					return -2
+				}
+			}
+			// the same constant under another operator (x > 0 for x != 0 once
+			// lengths are normalised, x >= 1 ...): decided by the ranges
+			if k, ok := b.ConstInt(); ok {
+				switch rangeDecides(op, k, fop, k) {
+				case 2:
+					return 1
+				case -2:
+					return -1
+				}
+			}
 			return 0
 		}
 		if d := try(f.Op, f.L, f.R); d != 0 {
@@ -344,6 +365,11 @@ func impliedByRange(op, fop string, l, rr func(*core.Expr) bool, a, b *core.Expr
 	if !found {
 		return 0
 	}
+	return rangeDecides(op, k, fop, k2)
+}
+
+// rangeDecides: does "x op k" decide "x fop k2"? +2 implied, -2 excluded.
+func rangeDecides(op string, k int64, fop string, k2 int64) int {
 	const inf = int64(1) << 62
 	rng := func(o string, c int64) (lo, hi int64, ok bool) {
 		switch o {
